@@ -176,6 +176,13 @@ let handle_ry = function
       Printf.sprintf "%s %s %s" id (if fin then (if ryu_ok bits then "ok" else "notfound") else "nonfinite") (hex_of_bytes (json_f64 bits))
   | _ -> failwith "bad RY line"
 
+(* RF <id> <8 hex digits>: the text serde_json writes for the binary32 with these bits (big-endian) *)
+let handle_rf = function
+  | [ id; data ] ->
+      let bits = List.fold_left (fun acc b -> N.add (N.mul acc (n_of_int 256)) b) N0 (bytes_of_hex data) in
+      Printf.sprintf "%s %s %s" id (if json_f32_found bits then "ok" else "notfound") (hex_of_bytes (json_f32 bits))
+  | _ -> failwith "bad RF line"
+
 (* JI <id> <hex>: xt's JSON detection trial (serde_json's ignore_value) on a slice and on a reader *)
 let handle_ji = function
   | [ id; data ] ->
@@ -578,6 +585,7 @@ let () =
           | "TV" :: rest -> handle_tv rest
           | "RY" :: rest -> handle_ry rest
           | "JI" :: rest -> handle_ji rest
+          | "RF" :: rest -> handle_rf rest
           | k :: _ -> failwith ("unknown case kind " ^ k)
           | [] -> ""
         in
